@@ -12,26 +12,26 @@ import (
 
 // ---- C08: CSS parser ---------------------------------------------------------------------------
 
-func cssParseArgs(inline bool, b []byte) []int64 {
-	return append([]int64{b2i(inline)}, bytesToArgs(b)...)
+func c08CssParseArgs(inline bool, b []byte) []int64 {
+	return append([]int64{c07B2i(inline)}, bytesToArgs(b)...)
 }
 
-func cssParseCase(inline bool, b []byte, note string) Case {
+func c08CssParseCase(inline bool, b []byte, note string) Case {
 	if note == "" {
 		note = fmt.Sprintf("cssparse inline=%v %q", inline, b)
 	}
-	return Case{Fn: "cssparse", Args: cssParseArgs(inline, b), Note: note}
+	return Case{Fn: "cssparse", Args: c08CssParseArgs(inline, b), Note: note}
 }
 
-func parserErrKind(p *css.Parser) int64 {
+func c08ParserErrKind(p *css.Parser) int64 {
 	if p.HasParseError() {
 		return 2
 	}
 	return errCode(p.Err())
 }
 
-// cssParseImpl runs the real parser; the encoding mirrors CssParse/Harness.v parse_enc.
-func cssParseImpl(c Case) []int64 {
+// c08CssParseImpl runs the real parser; the encoding mirrors CssParse/Harness.v parse_enc.
+func c08CssParseImpl(c Case) []int64 {
 	inline := c.Args[0] != 0
 	dv, _ := takeList(c.Args[1:])
 	d := toBytes(dv)
@@ -60,7 +60,7 @@ func cssParseImpl(c Case) []int64 {
 					out = append(out, int64(x))
 				}
 			}
-			out = append(out, parserErrKind(ps), int64(ps.Offset()))
+			out = append(out, c08ParserErrKind(ps), int64(ps.Offset()))
 			if gt == css.ErrorGrammar && !ps.HasParseError() {
 				if extra == 0 {
 					out = append(out, -2)
@@ -76,7 +76,7 @@ func cssParseImpl(c Case) []int64 {
 	return out
 }
 
-func cssHashImpl(c Case) []int64 {
+func c08CssHashImpl(c Case) []int64 {
 	dv, _ := takeList(c.Args)
 	d := toBytes(dv)
 	out := []int64{-1}
@@ -85,10 +85,10 @@ func cssHashImpl(c Case) []int64 {
 }
 
 // fragments for the exhaustive small-scope enumeration (each is one or two tokens)
-var cssFragsFull = []string{"a", "{", "}", ";", ":", "*", "@media", "@x", "(", ")", ",", " ", "--v", "!", "/**/", "[", "]", "@font-face", "1", "\"s\"", "f(", "<!--"}
-var cssFragsCore = []string{"a", "{", "}", ";", ":", "*", "@media", "@x", "(", ")", " ", "--v", "@page"}
+var c08CssFragsFull = []string{"a", "{", "}", ";", ":", "*", "@media", "@x", "(", ")", ",", " ", "--v", "!", "/**/", "[", "]", "@font-face", "1", "\"s\"", "f(", "<!--"}
+var c08CssFragsCore = []string{"a", "{", "}", ";", ":", "*", "@media", "@x", "(", ")", " ", "--v", "@page"}
 
-func allFragSeqs(frags []string, k int, f func([]byte)) {
+func c08AllFragSeqs(frags []string, k int, f func([]byte)) {
 	var rec func(cur []byte, n int)
 	rec = func(cur []byte, n int) {
 		f(append([]byte{}, cur...))
@@ -104,24 +104,24 @@ func allFragSeqs(frags []string, k int, f func([]byte)) {
 
 // ---- stylesheet generator with the expected unit stream ----------------------------------------
 
-type cssUnit struct {
+type c08CssUnit struct {
 	gt   css.GrammarType
 	name string   // expected data (lower-cased where the parser lower-cases)
-	vals []cssTok // expected Values(); nil = not checked
+	vals []c07CssTok // expected Values(); nil = not checked
 }
 
-type sheetGen struct {
+type c08SheetGen struct {
 	r     *Rng
 	text  []byte
-	units []cssUnit
+	units []c08CssUnit
 	depth int // > 0 inside a block: comments are not units there
 }
 
-func (g *sheetGen) ws(must bool) bool {
+func (g *c08SheetGen) ws(must bool) bool {
 	if must || g.r.Chance(1, 2) {
-		g.text = append(g.text, genWS(g.r)...)
+		g.text = append(g.text, c07GenWS(g.r)...)
 		if g.depth > 0 && g.r.Chance(1, 8) {
-			g.text = append(g.text, genComment(g.r)...)
+			g.text = append(g.text, c07GenComment(g.r)...)
 			g.text = append(g.text, ' ')
 		}
 		return true
@@ -129,48 +129,48 @@ func (g *sheetGen) ws(must bool) bool {
 	return false
 }
 
-func wsTok() cssTok { return cssTok{css.WhitespaceToken, []byte(" ")} }
+func c08WsTok() c07CssTok { return c07CssTok{css.WhitespaceToken, []byte(" ")} }
 
-func genSimpleIdent(r *Rng) []byte {
+func c08GenSimpleIdent(r *Rng) []byte {
 	n := 1 + r.Intn(5)
 	b := []byte{"abcdfghxyz"[r.Intn(10)]}
 	for i := 1; i < n; i++ {
 		b = append(b, "abcdefxyz-_0123"[r.Intn(15)])
 	}
-	if isURLName(b) {
+	if c07IsURLName(b) {
 		b = append(b, 'x')
 	}
 	return b
 }
 
 // a value / prelude word: (type, text)
-func genWord(r *Rng) cssTok {
+func c08GenWord(r *Rng) c07CssTok {
 	switch r.Intn(8) {
 	case 0:
-		return cssTok{css.NumberToken, genNumber(r)}
+		return c07CssTok{css.NumberToken, c07GenNumber(r)}
 	case 1:
-		u := genSimpleIdent(r)
-		for !unitOK(u) {
-			u = genSimpleIdent(r)
+		u := c08GenSimpleIdent(r)
+		for !c07UnitOK(u) {
+			u = c08GenSimpleIdent(r)
 		}
-		return cssTok{css.DimensionToken, append(genNumber(r), u...)}
+		return c07CssTok{css.DimensionToken, append(c07GenNumber(r), u...)}
 	case 2:
-		return cssTok{css.PercentageToken, append(genNumber(r), '%')}
+		return c07CssTok{css.PercentageToken, append(c07GenNumber(r), '%')}
 	case 3:
-		return cssTok{css.HashToken, append([]byte{'#'}, genSimpleIdent(r)...)}
+		return c07CssTok{css.HashToken, append([]byte{'#'}, c08GenSimpleIdent(r)...)}
 	case 4:
-		return cssTok{css.StringToken, genString(r)}
+		return c07CssTok{css.StringToken, c07GenString(r)}
 	case 5:
-		return cssTok{css.URLToken, genURL(r)}
+		return c07CssTok{css.URLToken, c07GenURL(r)}
 	default:
-		return cssTok{css.IdentToken, genSimpleIdent(r)}
+		return c07CssTok{css.IdentToken, c08GenSimpleIdent(r)}
 	}
 }
 
 // declaration value: words separated by whitespace, with optional punctuation , / ! whose surrounding
 // whitespace disappears; functions f(a, b)
-func (g *sheetGen) genValue() []cssTok {
-	var vals []cssTok
+func (g *c08SheetGen) genValue() []c07CssTok {
+	var vals []c07CssTok
 	n := 1 + g.r.Intn(4)
 	prevWord := false
 	for i := 0; i < n; i++ {
@@ -185,33 +185,33 @@ func (g *sheetGen) genValue() []cssTok {
 				if p == '/' {
 					tt = css.DelimToken
 				}
-				vals = append(vals, cssTok{tt, []byte{p}})
+				vals = append(vals, c07CssTok{tt, []byte{p}})
 				g.ws(false)
 			default:
 				g.ws(true)
-				vals = append(vals, wsTok())
+				vals = append(vals, c08WsTok())
 			}
 		}
 		if g.r.Chance(1, 6) {
 			// function call
-			name := append(genSimpleIdent(g.r), '(')
+			name := append(c08GenSimpleIdent(g.r), '(')
 			g.text = append(g.text, name...)
-			vals = append(vals, cssTok{css.FunctionToken, name})
+			vals = append(vals, c07CssTok{css.FunctionToken, name})
 			m := 1 + g.r.Intn(3)
 			for j := 0; j < m; j++ {
 				if j > 0 {
 					g.text = append(g.text, ',')
-					vals = append(vals, cssTok{css.CommaToken, []byte(",")})
+					vals = append(vals, c07CssTok{css.CommaToken, []byte(",")})
 					g.ws(false)
 				}
-				w := genWord(g.r)
+				w := c08GenWord(g.r)
 				g.text = append(g.text, w.text...)
 				vals = append(vals, w)
 			}
 			g.text = append(g.text, ')')
-			vals = append(vals, cssTok{css.RightParenthesisToken, []byte(")")})
+			vals = append(vals, c07CssTok{css.RightParenthesisToken, []byte(")")})
 		} else {
-			w := genWord(g.r)
+			w := c08GenWord(g.r)
 			g.text = append(g.text, w.text...)
 			vals = append(vals, w)
 		}
@@ -220,23 +220,23 @@ func (g *sheetGen) genValue() []cssTok {
 	if g.r.Chance(1, 6) {
 		g.ws(false)
 		g.text = append(g.text, '!')
-		vals = append(vals, cssTok{css.DelimToken, []byte("!")})
+		vals = append(vals, c07CssTok{css.DelimToken, []byte("!")})
 		g.ws(false)
 		g.text = append(g.text, "important"...)
-		vals = append(vals, cssTok{css.IdentToken, []byte("important")})
+		vals = append(vals, c07CssTok{css.IdentToken, []byte("important")})
 	}
 	return vals
 }
 
 // declaration list inside a block; last=true ends with '}' (already consumed by the caller otherwise)
-func (g *sheetGen) genDeclarations(depth int, allowNested bool) {
+func (g *c08SheetGen) genDeclarations(depth int, allowNested bool) {
 	n := g.r.Intn(4)
 	for i := 0; i < n; i++ {
 		g.ws(false)
 		switch {
 		case g.r.Chance(1, 8):
 			// custom property: the value is the exact source text
-			name := append([]byte("--"), genSimpleIdent(g.r)...)
+			name := append([]byte("--"), c08GenSimpleIdent(g.r)...)
 			g.text = append(g.text, name...)
 			g.ws(false)
 			g.text = append(g.text, ':')
@@ -244,15 +244,15 @@ func (g *sheetGen) genDeclarations(depth int, allowNested bool) {
 			m := g.r.Intn(4)
 			for j := 0; j < m; j++ {
 				g.text = append(g.text, ' ')
-				g.text = append(g.text, genWord(g.r).text...)
+				g.text = append(g.text, c08GenWord(g.r).text...)
 			}
 			val := append([]byte{}, g.text[start:]...)
 			g.text = append(g.text, ';')
-			g.units = append(g.units, cssUnit{css.CustomPropertyGrammar, string(name), []cssTok{{css.CustomPropertyValueToken, val}}})
+			g.units = append(g.units, c08CssUnit{css.CustomPropertyGrammar, string(name), []c07CssTok{{css.CustomPropertyValueToken, val}}})
 		case allowNested && depth < 2 && g.r.Chance(1, 8):
 			g.genRuleset(depth+1, true)
 		default:
-			name := genSimpleIdent(g.r)
+			name := c08GenSimpleIdent(g.r)
 			if g.r.Chance(1, 4) {
 				name = bytes.ToUpper(name)
 			}
@@ -263,14 +263,14 @@ func (g *sheetGen) genDeclarations(depth int, allowNested bool) {
 			vals := g.genValue()
 			g.ws(false)
 			g.text = append(g.text, ';')
-			g.units = append(g.units, cssUnit{css.DeclarationGrammar, strings.ToLower(string(name)), vals})
+			g.units = append(g.units, c08CssUnit{css.DeclarationGrammar, strings.ToLower(string(name)), vals})
 		}
 	}
 	g.ws(false)
 }
 
-func (g *sheetGen) genSelector(nested bool) []cssTok {
-	var vals []cssTok
+func (g *c08SheetGen) genSelector(nested bool) []c07CssTok {
+	var vals []c07CssTok
 	n := 1 + g.r.Intn(3)
 	for i := 0; i < n; i++ {
 		if i > 0 {
@@ -283,11 +283,11 @@ func (g *sheetGen) genSelector(nested bool) []cssTok {
 				if p == ',' {
 					tt = css.CommaToken
 				}
-				vals = append(vals, cssTok{tt, []byte{p}})
+				vals = append(vals, c07CssTok{tt, []byte{p}})
 				g.ws(false)
 			default:
 				g.ws(true)
-				vals = append(vals, wsTok())
+				vals = append(vals, c08WsTok())
 			}
 		}
 		// compound selector (a nested ruleset is only recognised after an identifier or a delimiter)
@@ -297,111 +297,111 @@ func (g *sheetGen) genSelector(nested bool) []cssTok {
 		}
 		switch k {
 		case 0:
-			id := genSimpleIdent(g.r)
+			id := c08GenSimpleIdent(g.r)
 			g.text = append(g.text, '.')
 			g.text = append(g.text, id...)
-			vals = append(vals, cssTok{css.DelimToken, []byte(".")}, cssTok{css.IdentToken, id})
+			vals = append(vals, c07CssTok{css.DelimToken, []byte(".")}, c07CssTok{css.IdentToken, id})
 		case 1:
-			h := append([]byte{'#'}, genSimpleIdent(g.r)...)
+			h := append([]byte{'#'}, c08GenSimpleIdent(g.r)...)
 			g.text = append(g.text, h...)
-			vals = append(vals, cssTok{css.HashToken, h})
+			vals = append(vals, c07CssTok{css.HashToken, h})
 		case 2:
-			id := genSimpleIdent(g.r)
-			at := genSimpleIdent(g.r)
+			id := c08GenSimpleIdent(g.r)
+			at := c08GenSimpleIdent(g.r)
 			g.text = append(g.text, id...)
 			g.text = append(g.text, '[')
 			g.text = append(g.text, at...)
-			vals = append(vals, cssTok{css.IdentToken, id}, cssTok{css.LeftBracketToken, []byte("[")}, cssTok{css.IdentToken, at})
+			vals = append(vals, c07CssTok{css.IdentToken, id}, c07CssTok{css.LeftBracketToken, []byte("[")}, c07CssTok{css.IdentToken, at})
 			if g.r.Bool() {
 				g.text = append(g.text, '=')
-				s := genString(g.r)
+				s := c07GenString(g.r)
 				g.text = append(g.text, s...)
-				vals = append(vals, cssTok{css.DelimToken, []byte("=")}, cssTok{css.StringToken, s})
+				vals = append(vals, c07CssTok{css.DelimToken, []byte("=")}, c07CssTok{css.StringToken, s})
 			}
 			g.text = append(g.text, ']')
-			vals = append(vals, cssTok{css.RightBracketToken, []byte("]")})
+			vals = append(vals, c07CssTok{css.RightBracketToken, []byte("]")})
 		default:
-			id := genSimpleIdent(g.r)
+			id := c08GenSimpleIdent(g.r)
 			g.text = append(g.text, id...)
-			vals = append(vals, cssTok{css.IdentToken, id})
+			vals = append(vals, c07CssTok{css.IdentToken, id})
 			if g.r.Chance(1, 3) {
-				ps := genSimpleIdent(g.r)
+				ps := c08GenSimpleIdent(g.r)
 				g.text = append(g.text, ':')
 				g.text = append(g.text, ps...)
-				vals = append(vals, cssTok{css.ColonToken, []byte(":")}, cssTok{css.IdentToken, ps})
+				vals = append(vals, c07CssTok{css.ColonToken, []byte(":")}, c07CssTok{css.IdentToken, ps})
 			}
 		}
 	}
 	return vals
 }
 
-func (g *sheetGen) genRuleset(depth int, nested bool) {
+func (g *c08SheetGen) genRuleset(depth int, nested bool) {
 	vals := g.genSelector(nested)
 	if nested {
 		vals = nil // a nested ruleset keeps every whitespace / comment as a token: not checked here
 	}
 	g.ws(false)
 	g.text = append(g.text, '{')
-	g.units = append(g.units, cssUnit{css.BeginRulesetGrammar, "", vals})
+	g.units = append(g.units, c08CssUnit{css.BeginRulesetGrammar, "", vals})
 	g.depth++
 	g.genDeclarations(depth, true)
 	g.depth--
 	g.text = append(g.text, '}')
-	g.units = append(g.units, cssUnit{css.EndRulesetGrammar, "", nil})
+	g.units = append(g.units, c08CssUnit{css.EndRulesetGrammar, "", nil})
 }
 
-var cssAtRuleList = []string{"media", "supports", "document", "layer", "-webkit-keyframes", "keyframes", "-moz-document"}
-var cssAtDeclList = []string{"font-face", "page"}
+var c08CssAtRuleList = []string{"media", "supports", "document", "layer", "-webkit-keyframes", "keyframes", "-moz-document"}
+var c08CssAtDeclList = []string{"font-face", "page"}
 
-func (g *sheetGen) genAtRule(depth int) {
+func (g *c08SheetGen) genAtRule(depth int) {
 	switch g.r.Intn(4) {
 	case 0: // statement at-rule
 		name := []string{"import", "charset", "namespace", "IMPORT"}[g.r.Intn(4)]
 		g.text = append(g.text, '@')
 		g.text = append(g.text, name...)
 		g.ws(true)
-		s := genString(g.r)
+		s := c07GenString(g.r)
 		g.text = append(g.text, s...)
 		g.ws(false)
 		g.text = append(g.text, ';')
-		g.units = append(g.units, cssUnit{css.AtRuleGrammar, "@" + strings.ToLower(name), []cssTok{wsTok(), {css.StringToken, s}}})
+		g.units = append(g.units, c08CssUnit{css.AtRuleGrammar, "@" + strings.ToLower(name), []c07CssTok{c08WsTok(), {css.StringToken, s}}})
 	case 1: // rule-list at-rule with a prelude
-		name := cssAtRuleList[g.r.Intn(len(cssAtRuleList))]
+		name := c08CssAtRuleList[g.r.Intn(len(c08CssAtRuleList))]
 		if g.r.Chance(1, 4) {
 			name = strings.ToUpper(name)
 		}
 		g.text = append(g.text, '@')
 		g.text = append(g.text, name...)
 		g.ws(true)
-		var vals []cssTok
-		id := genSimpleIdent(g.r)
+		var vals []c07CssTok
+		id := c08GenSimpleIdent(g.r)
 		g.text = append(g.text, id...)
-		vals = append(vals, wsTok(), cssTok{css.IdentToken, id})
+		vals = append(vals, c08WsTok(), c07CssTok{css.IdentToken, id})
 		if g.r.Bool() {
 			g.ws(true)
 			g.text = append(g.text, "and"...)
-			vals = append(vals, wsTok(), cssTok{css.IdentToken, []byte("and")})
+			vals = append(vals, c08WsTok(), c07CssTok{css.IdentToken, []byte("and")})
 			g.ws(true)
 			g.text = append(g.text, '(')
-			vals = append(vals, wsTok(), cssTok{css.LeftParenthesisToken, []byte("(")})
+			vals = append(vals, c08WsTok(), c07CssTok{css.LeftParenthesisToken, []byte("(")})
 			g.ws(false)
-			f := genSimpleIdent(g.r)
+			f := c08GenSimpleIdent(g.r)
 			g.text = append(g.text, f...)
-			vals = append(vals, cssTok{css.IdentToken, f})
+			vals = append(vals, c07CssTok{css.IdentToken, f})
 			g.ws(false)
 			g.text = append(g.text, ':')
-			vals = append(vals, cssTok{css.ColonToken, []byte(":")})
+			vals = append(vals, c07CssTok{css.ColonToken, []byte(":")})
 			g.ws(false)
-			w := cssTok{css.DimensionToken, append(genNumber(g.r), "px"...)}
+			w := c07CssTok{css.DimensionToken, append(c07GenNumber(g.r), "px"...)}
 			g.text = append(g.text, w.text...)
 			vals = append(vals, w)
 			g.ws(false)
 			g.text = append(g.text, ')')
-			vals = append(vals, cssTok{css.RightParenthesisToken, []byte(")")})
+			vals = append(vals, c07CssTok{css.RightParenthesisToken, []byte(")")})
 		}
 		g.ws(false)
 		g.text = append(g.text, '{')
-		g.units = append(g.units, cssUnit{css.BeginAtRuleGrammar, "@" + strings.ToLower(name), vals})
+		g.units = append(g.units, c08CssUnit{css.BeginAtRuleGrammar, "@" + strings.ToLower(name), vals})
 		g.depth++
 		m := g.r.Intn(3)
 		for i := 0; i < m; i++ {
@@ -415,51 +415,51 @@ func (g *sheetGen) genAtRule(depth int) {
 		g.ws(false)
 		g.depth--
 		g.text = append(g.text, '}')
-		g.units = append(g.units, cssUnit{css.EndAtRuleGrammar, "", nil})
+		g.units = append(g.units, c08CssUnit{css.EndAtRuleGrammar, "", nil})
 	case 2: // declaration-list at-rule
-		name := cssAtDeclList[g.r.Intn(len(cssAtDeclList))]
+		name := c08CssAtDeclList[g.r.Intn(len(c08CssAtDeclList))]
 		g.text = append(g.text, '@')
 		g.text = append(g.text, name...)
 		g.ws(false)
 		g.text = append(g.text, '{')
-		g.units = append(g.units, cssUnit{css.BeginAtRuleGrammar, "@" + name, []cssTok{}})
+		g.units = append(g.units, c08CssUnit{css.BeginAtRuleGrammar, "@" + name, []c07CssTok{}})
 		g.depth++
 		g.genDeclarations(depth, false)
 		g.depth--
 		g.text = append(g.text, '}')
-		g.units = append(g.units, cssUnit{css.EndAtRuleGrammar, "", nil})
+		g.units = append(g.units, c08CssUnit{css.EndAtRuleGrammar, "", nil})
 	default: // unknown at-rule: every token of the block is a Token unit (whitespace kept)
-		name := "x-" + string(genSimpleIdent(g.r))
+		name := "x-" + string(c08GenSimpleIdent(g.r))
 		g.text = append(g.text, '@')
 		g.text = append(g.text, name...)
 		g.text = append(g.text, '{')
-		g.units = append(g.units, cssUnit{css.BeginAtRuleGrammar, "@" + name, []cssTok{}})
+		g.units = append(g.units, c08CssUnit{css.BeginAtRuleGrammar, "@" + name, []c07CssTok{}})
 		m := g.r.Intn(4)
 		for i := 0; i < m; i++ {
-			w := genWord(g.r)
+			w := c08GenWord(g.r)
 			g.text = append(g.text, w.text...)
-			g.units = append(g.units, cssUnit{css.TokenGrammar, string(w.text), nil})
+			g.units = append(g.units, c08CssUnit{css.TokenGrammar, string(w.text), nil})
 			g.text = append(g.text, ' ')
-			g.units = append(g.units, cssUnit{css.TokenGrammar, " ", nil})
+			g.units = append(g.units, c08CssUnit{css.TokenGrammar, " ", nil})
 		}
 		g.text = append(g.text, '}')
-		g.units = append(g.units, cssUnit{css.EndAtRuleGrammar, "", nil})
+		g.units = append(g.units, c08CssUnit{css.EndAtRuleGrammar, "", nil})
 	}
 }
 
-func genStylesheet(r *Rng, n int) ([]byte, []cssUnit) {
-	g := &sheetGen{r: r}
+func c08GenStylesheet(r *Rng, n int) ([]byte, []c08CssUnit) {
+	g := &c08SheetGen{r: r}
 	for i := 0; i < n; i++ {
 		g.ws(false)
 		switch g.r.Intn(8) {
 		case 0:
-			c := genComment(g.r)
+			c := c07GenComment(g.r)
 			g.text = append(g.text, c...)
-			g.units = append(g.units, cssUnit{css.CommentGrammar, string(c), nil})
+			g.units = append(g.units, c08CssUnit{css.CommentGrammar, string(c), nil})
 		case 1:
 			t := []string{"<!--", "-->"}[g.r.Intn(2)]
 			g.text = append(g.text, t...)
-			g.units = append(g.units, cssUnit{css.TokenGrammar, t, nil})
+			g.units = append(g.units, c08CssUnit{css.TokenGrammar, t, nil})
 			g.text = append(g.text, ' ')
 		case 2, 3:
 			g.genAtRule(0)
@@ -471,13 +471,13 @@ func genStylesheet(r *Rng, n int) ([]byte, []cssUnit) {
 	return g.text, g.units
 }
 
-func genInline(r *Rng) ([]byte, []cssUnit) {
-	g := &sheetGen{r: r, depth: 1}
+func c08GenInline(r *Rng) ([]byte, []c08CssUnit) {
+	g := &c08SheetGen{r: r, depth: 1}
 	g.genDeclarations(5, false)
 	return g.text, g.units
 }
 
-var cssParseModel = &Model{
+var c08CssParseModel = &Model{
 	Name: "cssparse",
 	Gen: func(r *Rng, tier string, emit func(Case)) {
 		kFull, kCore := 3, 4
@@ -486,8 +486,8 @@ var cssParseModel = &Model{
 		}
 		for _, inline := range []bool{false, true} {
 			il := inline
-			allFragSeqs(cssFragsFull, kFull, func(b []byte) { emit(cssParseCase(il, b, "")) })
-			allFragSeqs(cssFragsCore, kCore, func(b []byte) { emit(cssParseCase(il, b, "")) })
+			c08AllFragSeqs(c08CssFragsFull, kFull, func(b []byte) { emit(c08CssParseCase(il, b, "")) })
+			c08AllFragSeqs(c08CssFragsCore, kCore, func(b []byte) { emit(c08CssParseCase(il, b, "")) })
 		}
 		n := 6000
 		if tier == "thorough" {
@@ -497,13 +497,13 @@ var cssParseModel = &Model{
 			var text []byte
 			inline := i%4 == 3
 			if inline {
-				text, _ = genInline(r)
+				text, _ = c08GenInline(r)
 			} else {
-				text, _ = genStylesheet(r, 1+i%4)
+				text, _ = c08GenStylesheet(r, 1+i%4)
 			}
 			switch i % 3 {
 			case 1:
-				text = mutateBytes(r, text)
+				text = c07MutateBytes(r, text)
 				// structural mutations: drop / duplicate / insert a brace, semicolon or colon
 				if len(text) > 0 && r.Bool() {
 					j := r.Intn(len(text))
@@ -515,20 +515,20 @@ var cssParseModel = &Model{
 					text = text[:r.Intn(len(text)+1)]
 				}
 			}
-			emit(cssParseCase(inline, text, ""))
+			emit(c08CssParseCase(inline, text, ""))
 			if i%7 == 0 {
-				emit(cssParseCase(!inline, text, ""))
+				emit(c08CssParseCase(!inline, text, ""))
 			}
 		}
 	},
-	Impl: cssParseImpl,
+	Impl: c08CssParseImpl,
 	Shrink: func(c Case) []Case {
 		dv, _ := takeList(c.Args[1:])
 		d := toBytes(dv)
 		var out []Case
 		for i := range d {
 			nd := append(append([]byte{}, d[:i]...), d[i+1:]...)
-			out = append(out, cssParseCase(c.Args[0] != 0, nd, ""))
+			out = append(out, c08CssParseCase(c.Args[0] != 0, nd, ""))
 		}
 		return out
 	},
@@ -547,12 +547,12 @@ var cssParseModel = &Model{
 	},
 }
 
-var cssHashModel = &Model{
+var c08CssHashModel = &Model{
 	Name: "csshash",
 	Gen: func(r *Rng, tier string, emit func(Case)) {
 		words := []string{"", "document", "font-face", "keyframes", "layer", "media", "page", "supports", "medi", "mediax", "Media", "pag", "layers", "supportss", "font-fac", "abcdefghi", "abcdefghij", "x"}
 		for _, w := range words {
-			emit(cssCase("csshash", []byte(w), ""))
+			emit(c07CssCase("csshash", []byte(w), ""))
 		}
 		n := 2000
 		if tier == "thorough" {
@@ -561,15 +561,15 @@ var cssHashModel = &Model{
 		for i := 0; i < n; i++ {
 			w := []byte(words[r.Intn(len(words))])
 			if i%2 == 0 {
-				w = mutateBytes(r, w)
+				w = c07MutateBytes(r, w)
 			} else {
-				w = genSimpleIdent(r)
+				w = c08GenSimpleIdent(r)
 			}
-			emit(cssCase("csshash", w, ""))
+			emit(c07CssCase("csshash", w, ""))
 		}
 	},
-	Impl:   cssHashImpl,
-	Shrink: shrinkBytesCase,
+	Impl:   c08CssHashImpl,
+	Shrink: c07ShrinkBytesCase,
 	Class: func(c Case, out []int64) string {
 		if out[0] == 0 {
 			return "miss"
@@ -580,26 +580,26 @@ var cssHashModel = &Model{
 
 // ---- C08 oracles (on the implementation only) -------------------------------------------------
 
-type parsedUnit struct {
+type c08ParsedUnit struct {
 	gt       css.GrammarType
 	tt       css.TokenType
 	data     []byte
-	vals     []cssTok
+	vals     []c07CssTok
 	parseErr bool
 	err      error
 	off      int
 }
 
-// runParser drives the real parser until the first ErrorGrammar without a parse error (ok=false if the
+// c08RunParser drives the real parser until the first ErrorGrammar without a parse error (ok=false if the
 // call budget 2*len+8 is exhausted), then calls Next twice more (returned in tail).
-func runParser(b []byte, inline bool) (units []parsedUnit, tail []parsedUnit, ok bool) {
+func c08RunParser(b []byte, inline bool) (units []c08ParsedUnit, tail []c08ParsedUnit, ok bool) {
 	in := parse.NewInputBytes(append(make([]byte, 0, len(b)+1), b...))
 	p := css.NewParser(in, inline)
-	one := func() parsedUnit {
+	one := func() c08ParsedUnit {
 		gt, tt, data := p.Next()
-		u := parsedUnit{gt: gt, tt: tt, data: append([]byte{}, data...), parseErr: p.HasParseError(), err: p.Err(), off: p.Offset()}
+		u := c08ParsedUnit{gt: gt, tt: tt, data: append([]byte{}, data...), parseErr: p.HasParseError(), err: p.Err(), off: p.Offset()}
 		for _, v := range p.Values() {
-			u.vals = append(u.vals, cssTok{v.TokenType, append([]byte{}, v.Data...)})
+			u.vals = append(u.vals, c07CssTok{v.TokenType, append([]byte{}, v.Data...)})
 		}
 		return u
 	}
@@ -614,12 +614,12 @@ func runParser(b []byte, inline bool) (units []parsedUnit, tail []parsedUnit, ok
 	return units, nil, false
 }
 
-func isBegin(gt css.GrammarType) bool {
+func c08IsBegin(gt css.GrammarType) bool {
 	return gt == css.BeginAtRuleGrammar || gt == css.BeginRulesetGrammar
 }
-func isEnd(gt css.GrammarType) bool { return gt == css.EndAtRuleGrammar || gt == css.EndRulesetGrammar }
+func c08IsEnd(gt css.GrammarType) bool { return gt == css.EndAtRuleGrammar || gt == css.EndRulesetGrammar }
 
-func lowerASCII(b []byte) []byte {
+func c08LowerASCII(b []byte) []byte {
 	o := append([]byte{}, b...)
 	for i, c := range o {
 		if c >= 'A' && c <= 'Z' {
@@ -629,16 +629,16 @@ func lowerASCII(b []byte) []byte {
 	return o
 }
 
-func cssCheckParse(rep *Report, b []byte, inline bool, bucket string) {
+func c08CssCheckParse(rep *Report, b []byte, inline bool, bucket string) {
 	mode := "s"
 	if inline {
 		mode = "i"
 	}
 	key := mode + ":" + hx(b)
 	rp := map[string]interface{}{"input": hx(b), "inline": inline}
-	var units, tail []parsedUnit
+	var units, tail []c08ParsedUnit
 	var ok bool
-	if p := catch(func() { units, tail, ok = runParser(b, inline) }); p != nil {
+	if p := catch(func() { units, tail, ok = c08RunParser(b, inline) }); p != nil {
 		rep.Violate("panic:"+key, fmt.Sprintf("css parser panics on %q (inline=%v): %v", b, inline, p), rp)
 		return
 	}
@@ -661,9 +661,9 @@ func cssCheckParse(rep *Report, b []byte, inline bool, bucket string) {
 		if u.parseErr {
 			break
 		}
-		if isBegin(u.gt) {
+		if c08IsBegin(u.gt) {
 			stack = append(stack, u.gt)
-		} else if isEnd(u.gt) {
+		} else if c08IsEnd(u.gt) {
 			if len(stack) == 0 {
 				rep.Violate("nesting-depth:"+key, fmt.Sprintf("css parser on %q: %v with no open unit", b, u.gt), rp)
 				break
@@ -679,7 +679,7 @@ func cssCheckParse(rep *Report, b []byte, inline bool, bucket string) {
 		}
 	}
 	// conservation against the real lexer
-	toks, _, _, _ := lexAll(b)
+	toks, _, _, _ := c07LexAll(b)
 	for _, u := range units {
 		// Values(): a subsequence of the lexer tokens that end at or before Offset(), in source order
 		i := 0
@@ -728,7 +728,7 @@ func cssCheckParse(rep *Report, b []byte, inline bool, bucket string) {
 			}
 			d := t.data
 			// at-rule names and property names are lower-cased (also when the unit ends in an error)
-			if bytes.Equal(d, u.data) || bytes.Equal(lowerASCII(d), u.data) {
+			if bytes.Equal(d, u.data) || bytes.Equal(c08LowerASCII(d), u.data) {
 				found = true
 				break
 			}
@@ -739,7 +739,7 @@ func cssCheckParse(rep *Report, b []byte, inline bool, bucket string) {
 						continue
 					}
 					g := append([]byte("*"), toks[k].data...)
-					if bytes.Equal(g, u.data) || bytes.Equal(lowerASCII(g), u.data) {
+					if bytes.Equal(g, u.data) || bytes.Equal(c08LowerASCII(g), u.data) {
 						found = true
 					}
 					break
@@ -763,29 +763,29 @@ func c08OracleStreams(r *Rng, tier string, rep *Report) {
 	}
 	for _, inline := range []bool{false, true} {
 		il := inline
-		allFragSeqs(cssFragsCore, k+1, func(b []byte) { cssCheckParse(rep, b, il, "exhaustive") })
-		allFragSeqs(cssFragsFull, k, func(b []byte) { cssCheckParse(rep, b, il, "exhaustive") })
+		c08AllFragSeqs(c08CssFragsCore, k+1, func(b []byte) { c08CssCheckParse(rep, b, il, "exhaustive") })
+		c08AllFragSeqs(c08CssFragsFull, k, func(b []byte) { c08CssCheckParse(rep, b, il, "exhaustive") })
 	}
 	n := 6000
 	if tier == "thorough" {
 		n = 300000
 	}
 	for i := 0; i < n; i++ {
-		text, _ := genStylesheet(r, 1+i%4)
+		text, _ := c08GenStylesheet(r, 1+i%4)
 		inline := i%5 == 4
 		if inline {
-			text, _ = genInline(r)
+			text, _ = c08GenInline(r)
 		}
 		bucket := "generated"
 		if i%2 == 1 {
-			text = mutateBytes(r, text)
+			text = c07MutateBytes(r, text)
 			bucket = "mutated"
 		}
-		cssCheckParse(rep, text, inline, bucket)
+		c08CssCheckParse(rep, text, inline, bucket)
 	}
 }
 
-func fmtUnits(us []cssUnit) string {
+func c08FmtUnits(us []c08CssUnit) string {
 	var s []string
 	for _, u := range us {
 		s = append(s, fmt.Sprintf("%v(%q)", u.gt, u.name))
@@ -803,17 +803,17 @@ func c08OracleWellFormed(r *Rng, tier string, rep *Report) {
 	for i := 0; i < n; i++ {
 		inline := i%5 == 4
 		var text []byte
-		var want []cssUnit
+		var want []c08CssUnit
 		if inline {
-			text, want = genInline(r)
+			text, want = c08GenInline(r)
 		} else {
-			text, want = genStylesheet(r, 1+i%4)
+			text, want = c08GenStylesheet(r, 1+i%4)
 		}
 		key := hx(text)
 		rp := map[string]interface{}{"input": key, "inline": inline}
-		var units []parsedUnit
+		var units []c08ParsedUnit
 		var ok bool
-		if p := catch(func() { units, _, ok = runParser(text, inline) }); p != nil || !ok {
+		if p := catch(func() { units, _, ok = c08RunParser(text, inline) }); p != nil || !ok {
 			rep.Violate("wf-run:"+key, fmt.Sprintf("css parser fails on the well-formed %q", text), rp)
 			continue
 		}
@@ -843,7 +843,7 @@ func c08OracleWellFormed(r *Rng, tier string, rep *Report) {
 					}
 				}
 				if bad {
-					desc = fmt.Sprintf("unit %d %v(%q) has Values %v, expected %v", j, u.gt, u.data, fmtToks(u.vals), fmtToks(w.vals))
+					desc = fmt.Sprintf("unit %d %v(%q) has Values %v, expected %v", j, u.gt, u.data, c08FmtToks(u.vals), c08FmtToks(w.vals))
 				}
 			}
 		}
@@ -853,7 +853,7 @@ func c08OracleWellFormed(r *Rng, tier string, rep *Report) {
 				for _, u := range got {
 					g = append(g, fmt.Sprintf("%v(%q)", u.gt, u.data))
 				}
-				desc = fmt.Sprintf("units %s, expected %s", strings.Join(g, " "), fmtUnits(want))
+				desc = fmt.Sprintf("units %s, expected %s", strings.Join(g, " "), c08FmtUnits(want))
 			}
 			rep.Violate("wellformed:"+key, fmt.Sprintf("%q (inline=%v): %s", text, inline, desc), rp)
 		}
@@ -863,16 +863,16 @@ func c08OracleWellFormed(r *Rng, tier string, rep *Report) {
 
 // fixed probes for nested rulesets (the property text asks for "rulesets including nested ones")
 func c08NestedProbes(rep *Report) {
-	show := func(us []parsedUnit) string {
+	show := func(us []c08ParsedUnit) string {
 		var g []string
 		for _, u := range us {
-			g = append(g, fmt.Sprintf("%v(%q)%s", u.gt, u.data, fmtToks(u.vals)))
+			g = append(g, fmt.Sprintf("%v(%q)%s", u.gt, u.data, c08FmtToks(u.vals)))
 		}
 		return strings.Join(g, " ")
 	}
 	// 1. a nested ruleset whose selector does not start with an identifier or a delimiter
 	for _, in := range []string{"a{#b{c:d}}", "a{:hover{c:d}}", "a{[x]{c:d}}"} {
-		units, _, ok := runParser([]byte(in), false)
+		units, _, ok := c08RunParser([]byte(in), false)
 		want := []css.GrammarType{css.BeginRulesetGrammar, css.BeginRulesetGrammar, css.DeclarationGrammar, css.EndRulesetGrammar, css.EndRulesetGrammar, css.ErrorGrammar}
 		bad := !ok || len(units) != len(want)
 		for i := 0; !bad && i < len(want); i++ {
@@ -885,7 +885,7 @@ func c08NestedProbes(rep *Report) {
 	}
 	// 2. whitespace next to punctuation in the selector of a nested ruleset
 	for _, in := range []string{"a{b ,c{}}", "a{b > c{}}"} {
-		units, _, ok := runParser([]byte(in), false)
+		units, _, ok := c08RunParser([]byte(in), false)
 		bad := !ok || len(units) < 2 || units[1].gt != css.BeginRulesetGrammar
 		if !bad {
 			for _, v := range units[1].vals {
@@ -901,7 +901,7 @@ func c08NestedProbes(rep *Report) {
 	}
 }
 
-func fmtToks(ts []cssTok) string {
+func c08FmtToks(ts []c07CssTok) string {
 	var s []string
 	for _, t := range ts {
 		s = append(s, fmt.Sprintf("%v(%q)", t.tt, t.text))
@@ -911,7 +911,7 @@ func fmtToks(ts []cssTok) string {
 
 func init() {
 	props["C08"] = &PropSpec{
-		Models: []*Model{cssParseModel, cssHashModel},
+		Models: []*Model{c08CssParseModel, c08CssHashModel},
 		Oracles: []*Oracle{
 			{Name: "c08-nesting-conservation-eof", Run: c08OracleStreams},
 			{Name: "c08-wellformed", Run: c08OracleWellFormed},
